@@ -186,7 +186,7 @@ pub fn atom_call(a: &str) -> Call {
 pub fn work_c02(ctx: &Ctx, rep: &mut Report) {
     // G1 with heavy resize / alternate-screen / save-restore mixing
     let prof = Profile::general().boost(&[T_ALT], 5).boost(&[T_SAVE], 3).resizes(28).length((2, 12), (1, 6));
-    let n = ctx.scale(200_000, 2_000_000);
+    let n = ctx.scale(200_000, 6_000_000);
     for u in ctx.units(n) {
         let mut r = Rng::derive(ctx.seed, &[0xC02, 1, u as u64]);
         let h = gen::history(&mut r, &prof);
@@ -197,7 +197,7 @@ pub fn work_c02(ctx: &Ctx, rep: &mut Report) {
     }
     // bigger screens, long wrapped lines, narrowing with the cursor deep in a wrapped line
     let prof2 = Profile::general().with(T_TEXT, 60).resizes(35).size(60, 20).length((3, 10), (1, 5)).boost(&[T_ALT], 3);
-    let n2 = ctx.scale(30_000, 300_000);
+    let n2 = ctx.scale(30_000, 1_000_000);
     for u in ctx.units(n2) {
         let mut r = Rng::derive(ctx.seed, &[0xC02, 2, u as u64]);
         let h = gen::history(&mut r, &prof2);
@@ -309,7 +309,7 @@ pub fn work_c13(ctx: &Ctx, rep: &mut Report) {
         .limits(gen::LIMITS_FINITE)
         .length((4, 30), (2, 12))
         .size(20, 6);
-    let n = ctx.scale(80_000, 800_000);
+    let n = ctx.scale(80_000, 3_000_000);
     for u in ctx.units(n) {
         let mut r = Rng::derive(ctx.seed, &[0xC13, 1, u as u64]);
         let h = gen::history(&mut r, &prof);
@@ -319,7 +319,7 @@ pub fn work_c13(ctx: &Ctx, rep: &mut Report) {
         c13_history(&h, mix(ctx.seed, u as u64), rep);
     }
     // huge single calls and narrowing resizes (row multiplication)
-    let n2 = ctx.scale(4000, 40_000);
+    let n2 = ctx.scale(4000, 100_000);
     for u in ctx.units(n2) {
         let mut r = Rng::derive(ctx.seed, &[0xC13, 2, u as u64]);
         let cols = r.range(2, 40);
@@ -450,7 +450,7 @@ fn split_per_function(h: &History) -> History {
 
 pub fn work_c15(ctx: &Ctx, rep: &mut Report) {
     let prof = Profile::general().with(T_RIS, 1).with(T_RESET, 3).boost(&[T_ALT], 2).resizes(8).length((2, 8), (1, 5));
-    let n = ctx.scale(150_000, 1_500_000);
+    let n = ctx.scale(150_000, 5_000_000);
     for u in ctx.units(n) {
         let mut r = Rng::derive(ctx.seed, &[0xC15, 1, u as u64]);
         let h = gen::history(&mut r, &prof);
